@@ -21,6 +21,7 @@ import (
 	"fmt"
 	"runtime"
 	"sort"
+	"strings"
 	"sync"
 	"sync/atomic"
 	"testing"
@@ -133,7 +134,7 @@ type conc struct {
 	// recorded findings excluded by construction (see c18_test.go): with the exclusion on,
 	// CleanEmptyGenerations does not overlap lookups, and Cleanup does not overlap lookups
 	// whose loader fails; everything else overlaps freely
-	gateGen, gateFail sync.RWMutex
+	gateGen, gateFail, gateReg sync.RWMutex
 
 	servedByOthers atomic.Int64 // lookups answered without running their own loader
 	waitedReloads  atomic.Int64
@@ -249,6 +250,10 @@ func (s *conc) cleanup() {
 		s.gateFail.Lock()
 		defer s.gateFail.Unlock()
 	}
+	if excludeRegisterDuringCleanup {
+		s.gateReg.Lock()
+		defer s.gateReg.Unlock()
+	}
 	var st cache.CleanStat
 	if s.cl.Cleanup(&st) {
 		s.cleanedPasses.Add(1)
@@ -305,9 +310,14 @@ func (s *conc) quiescent(where string, privates []*private, sharedReleased, afte
 	}
 	sum := uint64(0)
 	expected := 0
+	var detail []string
 	one := func(name string, id any, c *cache.Cache[val], released bool) error {
 		n := held[id]
 		live := c.VerifLiveSize()
+		if !released && live > 0 {
+			_, slow := id.(*slowBucket)
+			detail = append(detail, fmt.Sprintf("%s slow=%v: %d", name, slow, live))
+		}
 		switch {
 		case !released && n == 0:
 			return evid.Failf("live-cache-dropped", "%s: %s is not released but the cleaner no longer manages it (%d buckets held)", where, name, len(bs))
@@ -338,7 +348,7 @@ func (s *conc) quiescent(where string, privates []*private, sharedReleased, afte
 		return evid.Failf("bucket-foreign", "%s: the cleaner holds %d buckets, only %d are caches created on it", where, len(bs), expected)
 	}
 	if acc := s.cl.VerifSize(); acc != sum {
-		return evid.Failf("accounting", "%s: the cleaner accounts %d bytes, the live entries of its non-released caches sum to %d", where, acc, sum)
+		return evid.Failf("accounting", "%s: the cleaner accounts %d bytes, the live entries of its non-released caches sum to %d (%s)", where, acc, sum, strings.Join(detail, "; "))
 	}
 	return nil
 }
@@ -404,6 +414,9 @@ func runConcBody(c ConcCase) (evid.Result, error) {
 			for ri, r := range script {
 				mt := newMetrics()
 				p := &private{}
+				if excludeRegisterDuringCleanup {
+					s.gateReg.RLock()
+				}
 				if r.SlowRel > 0 {
 					p.c = cache.NewCache[val](nil, mt)
 					b := yieldingBucket(p.c, r.SlowRel)
@@ -412,6 +425,9 @@ func runConcBody(c ConcCase) (evid.Result, error) {
 				} else {
 					p.c = cache.NewCache[val](s.cl, mt)
 					p.id = p.c
+				}
+				if excludeRegisterDuringCleanup {
+					s.gateReg.RUnlock()
 				}
 				churned[ci] = append(churned[ci], p)
 				tag := 100 + ci*100 + ri
@@ -537,6 +553,9 @@ func runConcBody(c ConcCase) (evid.Result, error) {
 		res.Labels = append(res.Labels, "conc:private-caches-kept")
 	}
 	res.Labels = append(res.Labels, exclusionLabels()...)
+	if excludeRegisterDuringCleanup {
+		res.Labels = append(res.Labels, "excluded-trigger:register-during-cleanup")
+	}
 	// NT: somebody was served a value loaded by another lookup, and the cleaner evicted during the run
 	res.NonTrivial = s.servedByOthers.Load() > 0 && s.evictedBytes.Load() > 0
 	return res, nil
